@@ -5,18 +5,18 @@ From PF Require Import Arr Net SweepDown Fill Rank Stream.
 Local Open Scope Z_scope.
 
 (* ---- by stream order ----
-   for idx0 in seq[::-1]: skip if strord[idx0] < min_sto   (the `mask[idx0] is False` test never fires
-   in interpreted mode: identity comparison of a numpy bool with False)
+   for idx0 in seq[::-1]: skip if (mask is not None and mask[idx0] == False) or strord[idx0] < min_sto
+   (mask: consider only True cells; Stream.mget reads the optional mask, true when there is none)
    if strord[idx0] != strord[idx_ds] or idx_ds == idx0: idxs.append(idx0); subbas[idx0] = len(idxs) *)
-Definition sto_step (ds : list nat) (strord : list Z) (min_sto : Z) (st : list Z * list nat) (idx0 : nat) : list Z * list nat :=
+Definition sto_step (ds : list nat) (strord : list Z) (mask : option (list bool)) (min_sto : Z) (st : list Z * list nat) (idx0 : nat) : list Z * list nat :=
   let '(sb, idxs) := st in
-  if nth idx0 strord 0 <? min_sto then st
+  if negb (mget mask idx0) || (nth idx0 strord 0 <? min_sto) then st
   else let d := dsf ds idx0 in
        if negb (nth idx0 strord 0 =? nth d strord 0) || (d =? idx0)%nat
        then (upd sb idx0 (Z.of_nat (length idxs) + 1), idxs ++ [idx0]) else st.
-Definition subbasins_streamorder (ds : list nat) (sq : list nat) (strord : list Z) (min_sto : Z) : list Z * list nat :=
+Definition subbasins_streamorder (ds : list nat) (sq : list nat) (strord : list Z) (mask : option (list bool)) (min_sto : Z) : list Z * list nat :=
   let ms := if min_sto <? 0 then fold_right Z.max 0 strord + min_sto else min_sto in
-  let '(sb, idxs) := fold_left (sto_step ds strord ms) (rev sq) (repeat 0 (length ds), []) in
+  let '(sb, idxs) := fold_left (sto_step ds strord mask ms) (rev sq) (repeat 0 (length ds), []) in
   (fillnodata_upstream ds sq sb 0, idxs).
 
 (* ---- by minimum area ---- *)
